@@ -196,6 +196,24 @@ def concurrent_sweep_stale_requeue(sig, ctx) -> bool:
     return False
 
 
+def add_instance_not_atomic(sig, ctx) -> bool:
+    """AddMultiInstance was killed between its commits: the stage counted an instance whose row or whose StartStage does
+    not exist (the message is already marked processed by the first commit and is never handled again)."""
+    if ctx["formula"] not in sig["formulas"]:
+        return False
+    prog = ctx["program"]
+    if not any(s.get("midyn") for s in prog["stages"]):
+        return False
+    tr = ctx.get("trace")
+    s = _st(ctx)
+    st = s.get("st") or {}
+    crashed = (not tr) or any(e["e"] == "crash" for e in tr["events"])
+    for sd in prog["stages"]:
+        if sd.get("midyn") and st.get(sd["ref"], {}).get("mi", 0) >= 1 and crashed:
+            return True
+    return False
+
+
 def region_strands_workflow(sig, ctx) -> bool:
     """A CancelRegion was handled, every stage of the region that was not complete is CANCELED, nothing is queued, no
     stage is RUNNING / SUSPENDED / PAUSED and the workflow is still RUNNING (nobody queued CompleteWorkflow)."""
@@ -264,5 +282,6 @@ PREDICATES = {
     "recovery_blocked_by_stale_message": recovery_blocked_by_stale_message,
     "concurrent_sweep_stale_requeue": concurrent_sweep_stale_requeue,
     "region_strands_workflow": region_strands_workflow,
+    "add_instance_not_atomic": add_instance_not_atomic,
     "always": always,
 }
